@@ -1,18 +1,27 @@
 import SuxModel.Func.LemmasLoop
+import SuxModel.Gen.TieFunc
 /-!
 # C17 — a failed build reports an error; it never returns a wrong function
 
 Model: `Sux.Func.BL` (`BuildLoop.lean`): `readPass` (the reading loop of `try_seed`), `trySeed`,
-`step`/`buildLoop` (`build_loop` with `dup_count`, `local_dup_count`, the rewinds).  Everything
-`try_seed` does after reading the keys is the input `S.solve`.
+`step`/`buildLoop` (`build_loop` with `dup_count`, `local_dup_count`, `max_shard_count`, the
+rewinds).  Everything `try_seed` does after reading the keys is the input `S.solve`; `S.checkDups`
+is the builder's flag.
 
 Proved: I/O errors of either lender at any position of any pass, and failing rewinds, are the
 result of the call; duplicate signatures on every attempt give `DuplicateKey` after exactly four
 attempts (three for local duplicates); `ok f` is always the answer of the last attempt on the
 pairs that pass delivered.
 
+D34 (fixed in the code, `max_shard_count`): with `check_dups` an oversized maximum shard is retried
+at most `Gen.maxShardTooBigRetries` (= 32, regenerated from the source; tie lemma
+`Gen.tie_maxShardTooBigRetries`) times, then reported as `DuplicateKey`:
+`build_loop_bounded_when_checking_dups`, `heavy_key_forces_max_shard_too_big`,
+`old_loop_never_returns_on_heavy_key` (the regression: the loop before the fix).
+
 Not provable (stated explicitly): termination for every key set.  `build_loop` returns iff some
-attempt is not a plain transient failure (`terminates_of_final`, `diverges_of_all_transient`,
+attempt is not retried without bound — `UnsolvableShard` always is, `MaxShardTooBig` is when
+`check_dups` is off — (`terminates_of_final`, `diverges_of_all_unbounded`,
 `nontransient_of_terminates`); whether such an attempt exists depends on xxh3 and on
 random-hypergraph theory.  The runner measures the number of attempts.
 -/
@@ -52,18 +61,21 @@ theorem value_error_fails_attempt (S : Sys κ ν F) (a : Nat) (V : Lender ν) (h
 /-- **I/O errors propagate.**  If attempt `k` fails with an I/O error (see the two lemmas above)
     after `k` attempts that failed transiently (unsolvable shard / max shard too big) and were
     followed by successful rewinds, `build_loop` returns that error after exactly `k + 1`
-    attempts — in particular never `ok`. -/
+    attempts — in particular never `ok`.  (`hc`: with `check_dups` on, oversized maximum shards
+    are counted, so the `k` transient attempts must stay within the bound of D34's fix.) -/
 theorem io_error_propagates (S : Sys κ ν F) (k fuel : Nat) (hk : k < fuel)
+    (hc : S.checkDups = true → k ≤ Gen.maxShardTooBigRetries)
     (hpre : ∀ j, j < k → PlainTransient (trySeed S j) ∧ rewindsOk S j = true)
     (hio : trySeed S k = .ioErr) : build S fuel = (.errIo, k + 1) :=
-  buildLoop_io_at S k fuel hk hpre hio
+  buildLoop_io_at S k fuel hk hc hpre hio
 
 /-- a lender that cannot be rewound after the transient attempt `k`: the rewind error is returned -/
 theorem rewind_error_propagates (S : Sys κ ν F) (k fuel : Nat) (hk : k < fuel)
+    (hc : S.checkDups = true → k < Gen.maxShardTooBigRetries)
     (hpre : ∀ j, j < k → PlainTransient (trySeed S j) ∧ rewindsOk S j = true)
     (htr : PlainTransient (trySeed S k)) (hrw : rewindsOk S k = false) :
     build S fuel = (.errIo, k + 1) :=
-  buildLoop_rewind_fail_at S k fuel hk hpre htr hrw
+  buildLoop_rewind_fail_at S k fuel hk hc hpre htr hrw
 
 /-- **Duplicates are detected after a bounded number of attempts**: `DuplicateSignature` on the
     first four attempts ⇒ `Err(DuplicateKey)` after exactly 4 attempts -/
@@ -83,7 +95,7 @@ theorem local_dup_bounded (S : Sys κ ν F) (fuel : Nat) (hf : 3 ≤ fuel)
 theorem ok_is_last_attempt (S : Sys κ ν F) (fuel : Nat) (f : F) (k : Nat)
     (h : build S fuel = (.ok f, k)) :
     0 < k ∧ ∃ items, delivered S (k - 1) = .ok items ∧ S.solve (k - 1) items = .ok f := by
-  obtain ⟨hk, hts⟩ := buildLoop_ok_last S fuel 0 0 0 f k h
+  obtain ⟨hk, hts⟩ := buildLoop_ok_last S fuel 0 0 0 0 f k h
   refine ⟨hk, ?_⟩
   unfold trySeed at hts
   cases hd : delivered S (k - 1) with
@@ -104,21 +116,115 @@ theorem ok_delivers_all (S : Sys κ ν F) (V : Lender ν) (hS : S.vals = some V)
   simp
 
 /-- **Termination, what can be said.**  (1) a final attempt (anything but a `SolveError`) makes
-    the loop return; (2) if every attempt is a plain transient failure and every rewind succeeds
-    the loop never returns; (3) a returning loop has met an attempt that is not a plain transient
-    failure, or a failing rewind. -/
+    the loop return; (2) if every attempt is retried without bound (`UnsolvableShard`, or
+    `MaxShardTooBig` with `check_dups` off) and every rewind succeeds the loop never returns;
+    (3) a returning loop has met an attempt that is not of that kind, or a failing rewind. -/
 theorem terminates_of_final_attempt (S : Sys κ ν F) (k : Nat) (hfin : Final (trySeed S k)) :
-    (build S (k + 1)).1 ≠ .outOfFuel := terminates_of_final S k hfin k 0 0 0 (by omega)
+    (build S (k + 1)).1 ≠ .outOfFuel := terminates_of_final S k hfin k 0 0 0 0 (by omega)
 
 theorem never_returns_if_all_transient (S : Sys κ ν F)
-    (h : ∀ a, PlainTransient (trySeed S a) ∧ rewindsOk S a = true) (fuel : Nat) :
-    (build S fuel).1 = .outOfFuel := diverges_of_all_transient S h fuel 0 0 0
+    (h : ∀ a, Unbounded S (trySeed S a) ∧ rewindsOk S a = true) (fuel : Nat) :
+    (build S fuel).1 = .outOfFuel := diverges_of_all_unbounded S h fuel 0 0 0 0
 
 theorem returns_only_if_nontransient (S : Sys κ ν F) (fuel : Nat)
     (h : (build S fuel).1 ≠ .outOfFuel) :
-    ∃ k, ¬ (PlainTransient (trySeed S k) ∧ rewindsOk S k = true) := by
-  obtain ⟨k, _, hk⟩ := nontransient_of_terminates S fuel 0 0 0 h
+    ∃ k, ¬ (Unbounded S (trySeed S k) ∧ rewindsOk S k = true) := by
+  obtain ⟨k, _, hk⟩ := nontransient_of_terminates S fuel 0 0 0 0 h
   exact ⟨k, hk⟩
+
+/-! ### D34: oversized maximum shards under `check_dups` -/
+
+/-- **`build_loop` is bounded when duplicates are checked, up to unsolvable shards.**  With
+    `check_dups`, every attempt either ends the loop (success, fatal error, failing rewind, a
+    counter at its bound) or is retried and then increments `dup_count` (≤ 3), `local_dup_count`
+    (≤ 2), `max_shard_count` (≤ `maxShardTooBigRetries`), or was an `UnsolvableShard`.  The retry
+    on `UnsolvableShard` is NOT bounded in the code; the hypothesis `hk` bounds their number by
+    `k` (`unsCount S n` = unsolvable attempts among the first `n`).  Then the loop returns within
+    `6 + maxShardTooBigRetries + k` attempts, whatever `solve` is, and never runs out of that
+    much fuel. -/
+theorem build_loop_bounded_when_checking_dups (S : Sys κ ν F) (hc : S.checkDups = true) (k : Nat)
+    (hk : ∀ n, unsCount S n ≤ k) (fuel : Nat)
+    (hf : 6 + Gen.maxShardTooBigRetries + k ≤ fuel) :
+    (build S fuel).1 ≠ .outOfFuel ∧ (build S fuel).2 ≤ 6 + Gen.maxShardTooBigRetries + k :=
+  buildLoop_bounded_aux S hc k hk fuel 0 0 0 0 (by omega) (by omega) (by omega) (by simp [unsCount])
+    (by omega)
+
+/-- the same with the bound the source has now: at most `38 + k` attempts -/
+theorem build_loop_bound_38 (S : Sys κ ν F) (hc : S.checkDups = true) (k : Nat)
+    (hk : ∀ n, unsCount S n ≤ k) (fuel : Nat) (hf : 38 + k ≤ fuel) :
+    (build S fuel).1 ≠ .outOfFuel ∧ (build S fuel).2 ≤ 38 + k := by
+  have := build_loop_bounded_when_checking_dups S hc k hk fuel
+    (by rw [Gen.tie_maxShardTooBigRetries]; omega)
+  rw [Gen.tie_maxShardTooBigRetries] at this
+  exact ⟨this.1, by omega⟩
+
+/-- **Why a heavy key gives `MaxShardTooBig` for every seed.**  Whatever function maps keys to
+    shards, the shard of `x` holds at least `count x` pairs; so if `m` copies of one key exceed
+    `slack · n / shards` (`slack = maxShardSlackNum / maxShardSlackDen` = 1.01, exact arithmetic),
+    the test `max_shard > slack · n / shards` of `try_seed` succeeds for every seed. -/
+theorem heavy_key_shard {κ : Type} [DecidableEq κ] (shardOf : κ → Nat) (keys : List κ) (x : κ)
+    (shards maxShard m : Nat) (hm : m ≤ keys.count x)
+    (hmax : (keys.filter (fun k => shardOf k == shardOf x)).length ≤ maxShard)
+    (hheavy : Gen.maxShardSlackNum * keys.length < Gen.maxShardSlackDen * m * shards) :
+    keys.count x ≤ (keys.filter (fun k => shardOf k == shardOf x)).length ∧
+    Gen.maxShardSlackNum * keys.length < Gen.maxShardSlackDen * maxShard * shards :=
+  ⟨shard_of_heavy_key shardOf keys x,
+   heavy_key_too_big shardOf keys x shards maxShard m hm hmax hheavy⟩
+
+/-- **A heavy key.**  If `try_seed` answers `MaxShardTooBig` on every attempt, whatever pairs were
+    delivered (what the previous lemma says a heavy key forces), and passes and rewinds succeed:
+    with `check_dups` the build ends with `DuplicateKey` after exactly
+    `maxShardTooBigRetries + 1` attempts; without `check_dups` it never returns (the retry is
+    still unbounded there: outside the property's hypothesis, documented here). -/
+theorem heavy_key_forces_max_shard_too_big (S : Sys κ ν F)
+    (hsolve : ∀ a items, S.solve a items = .solveErr .maxShardTooBig)
+    (hdel : ∀ a, ∃ items, delivered S a = .ok items)
+    (hrw : ∀ a, rewindsOk S a = true) :
+    (S.checkDups = true → ∀ fuel, Gen.maxShardTooBigRetries + 1 ≤ fuel →
+      build S fuel = (.errDuplicateKey, Gen.maxShardTooBigRetries + 1)) ∧
+    (S.checkDups = false → ∀ fuel, (build S fuel).1 = .outOfFuel) := by
+  have hts : ∀ a, trySeed S a = .solveErr .maxShardTooBig := by
+    intro a
+    obtain ⟨items, hd⟩ := hdel a
+    unfold trySeed
+    rw [hd]
+    exact hsolve a items
+  constructor
+  · intro hc fuel hf
+    obtain ⟨r, rfl⟩ : ∃ r, fuel = r + Gen.maxShardTooBigRetries + 1 :=
+      ⟨fuel - Gen.maxShardTooBigRetries - 1, by omega⟩
+    have := mst_forced_aux S hc hts Gen.maxShardTooBigRetries 0 0 0 0 r (by omega)
+      (fun j _ _ => hrw j)
+    simpa [build] using this
+  · intro hc fuel
+    exact diverges_of_all_unbounded S (fun a => ⟨Or.inr ⟨hts a, hc⟩, hrw a⟩) fuel 0 0 0 0
+
+/-- with the bound the source has now: `DuplicateKey` after exactly 33 attempts -/
+theorem heavy_key_gives_duplicate_key_after_33_attempts (S : Sys κ ν F) (hc : S.checkDups = true)
+    (hsolve : ∀ a items, S.solve a items = .solveErr .maxShardTooBig)
+    (hdel : ∀ a, ∃ items, delivered S a = .ok items)
+    (hrw : ∀ a, rewindsOk S a = true) (fuel : Nat) (hf : 33 ≤ fuel) :
+    build S fuel = (.errDuplicateKey, 33) := by
+  have := (heavy_key_forces_max_shard_too_big S hsolve hdel hrw).1 hc fuel
+    (by rw [Gen.tie_maxShardTooBigRetries]; omega)
+  rw [Gen.tie_maxShardTooBigRetries] at this
+  exact this
+
+/-- **The regression (defect D34).**  The loop before the fix (`buildOld`: the `MaxShardTooBig`
+    arm retries whatever `check_dups` is) never returns under the same hypothesis — even with
+    `check_dups`: every fuel is exhausted. -/
+theorem old_loop_never_returns_on_heavy_key (S : Sys κ ν F)
+    (hsolve : ∀ a items, S.solve a items = .solveErr .maxShardTooBig)
+    (hdel : ∀ a, ∃ items, delivered S a = .ok items)
+    (hrw : ∀ a, rewindsOk S a = true) (fuel : Nat) :
+    (buildOld S fuel).1 = .outOfFuel := by
+  have hts : ∀ a, trySeed S a = .solveErr .maxShardTooBig := by
+    intro a
+    obtain ⟨items, hd⟩ := hdel a
+    unfold trySeed
+    rw [hd]
+    exact hsolve a items
+  exact old_loop_diverges S (fun a => ⟨hts a, hrw a⟩) fuel 0 0 0 0
 
 /-! ### non-vacuity, and the D18 history -/
 
@@ -129,7 +235,7 @@ def exS : Sys Nat Nat Nat :=
     solve := fun a items => if a = 0 then .solveErr .unsolvable else .ok items.length }
 
 example : build exS 10 = (.errIo, 2) :=
-  io_error_propagates exS 1 10 (by omega)
+  io_error_propagates exS 1 10 (by omega) (fun h => by simp [exS] at h)
     (fun j hj => by
       have : j = 0 := by omega
       subst this
@@ -151,6 +257,26 @@ def exTake : Sys Nat Nat Nat :=
   { keys := takeLender 5,
     vals := some (vecLender 5 none none),
     solve := fun a items => if a = 0 then .solveErr .unsolvable else .ok items.length }
+
+/-- D34: 5 keys, every seed gives an oversized maximum shard -/
+def exHeavy (cd : Bool) : Sys Nat Nat Nat :=
+  { keys := vecLender 5 none none, vals := none, checkDups := cd,
+    solve := fun _ _ => .solveErr .maxShardTooBig }
+
+example : build (exHeavy true) 100 = (.errDuplicateKey, 33) := by decide
+example : build (exHeavy true) 100 = (.errDuplicateKey, 33) :=
+  heavy_key_gives_duplicate_key_after_33_attempts (exHeavy true) rfl (fun _ _ => rfl)
+    (fun _ => ⟨_, rfl⟩) (fun _ => rfl) 100 (by omega)
+example : build (exHeavy false) 200 = (.outOfFuel, 200) := by decide +kernel
+example : buildOld (exHeavy true) 200 = (.outOfFuel, 200) := by decide +kernel
+/-- three unsolvable attempts, then success, with `check_dups`: within the bound `38 + 3` -/
+example : build { exHeavy true with
+    solve := fun a items => if a < 3 then .solveErr .unsolvable else .ok items.length } 41
+      = (.ok 5, 4) := by decide
+/-- 3000 copies of one key among 100001 keys in 2 shards is NOT forced by arithmetic (the heavy
+    shard is too big only with overwhelming probability); 51000 copies are -/
+example : ¬ (Gen.maxShardSlackNum * 100001 < Gen.maxShardSlackDen * 3000 * 2) ∧
+    Gen.maxShardSlackNum * 100001 < Gen.maxShardSlackDen * 51000 * 2 := by decide
 
 example : build exTake 10 = (.ok 0, 2) := rfl
 example : delivered exTake 0 = .ok ((List.range 5).zip (List.range 5)) := rfl
